@@ -197,12 +197,18 @@ pub fn shard_size(rng: &mut Rng, k: usize, r: usize) -> usize {
         return *rng.pick(&[2usize, 4, 30, 62, 64, 66, 128, 130]);
     }
     let small = k.max(r) <= 16;
+    // small configurations: now and then really large shards (more than 1024
+    // blocks, lengths around and off multiples of 64 KiB) - always in the
+    // thorough tier, rarely in the quick one
+    if small && !crate::thorough() && rng.chance(1, 40) {
+        return *rng.pick(&[65538usize, 65600, 100_000, 131_072, 196_610]);
+    }
     match rng.below(if small && crate::thorough() { 12 } else { 10 }) {
         0..=6 => *rng.pick(&SIZES),
         7 => *rng.pick(&[1022usize, 1024, 1026, 4096, 4098]),
         8 | 9 => 2 * rng.range(1, 200),
         // thorough tier, small configurations: really large shards too
-        _ => *rng.pick(&[65534usize, 65536, 65538, 262_146, 1_048_576, 1_048_578]),
+        _ => *rng.pick(&[65534usize, 65536, 65538, 65600, 100_000, 131_072, 262_146, 1_048_576, 1_048_578]),
     }
 }
 
